@@ -607,6 +607,94 @@ impl<'a> World<'a> {
     // ------------------------------------------------------------------------------------------
     // in-memory operations (executed on the simulator thread; they contain no gate)
 
+    /// FAULT epilogue (a third of the fault runs): the cache path cannot be replaced (a directory sits there, so the
+    /// commit's rename fails) while process 0 flushes. The flush may fail, it must not panic, the store must still
+    /// know afterwards what it knew before (nothing reached the disk), and once the path is free again the next
+    /// flush of the same store saves all of it ("merging never loses a peer or address known to either side").
+    fn epilogue_failed_flush(&mut self) {
+        if self.procs.is_empty() || self.procs[0].is_none() || !self.flights.is_empty() {
+            return;
+        }
+        self.op_add(0, 0, 0, SHAPE_GOOD, 0);
+        self.op_add(0, 1, 0, SHAPE_GOOD, 0);
+        if self.stop {
+            return;
+        }
+        let Some(before) = self.mem_snap(0) else { return };
+        if before.n_addrs() == 0 || !before.within_bounds(self.plan.max_peers, self.plan.max_addrs) {
+            return;
+        }
+        let _ = std::fs::remove_file(&self.path);
+        if std::fs::create_dir(&self.path).and_then(|_| std::fs::write(self.path.join("occupied"), b"x")).is_err() {
+            self.rep.harness_error = Some("cannot block the cache path".into());
+            self.stop = true;
+            return;
+        }
+        self.rep.fault("cache_path_blocked_by_directory");
+        self.rep.log("FAULT cache path blocked by a directory; p0 flushes".to_string());
+        let mut store = self.procs[0].take().unwrap();
+        let r = catch_unwind(AssertUnwindSafe(|| store.sync_and_flush_to_disk(false)));
+        let _ = std::fs::remove_dir_all(&self.path);
+        match r {
+            Err(p) => {
+                let msg = panic_text(p);
+                return self.viol("panic", &[("where", "flush_with_blocked_path".into())], format!("the flush panicked: {msg}"));
+            }
+            Ok(Ok(())) => {
+                self.rep.log("  flush reported Ok although the path was blocked".to_string());
+                self.rep.probe("flush_ok_although_path_blocked");
+                self.procs[0] = Some(store);
+                self.last_bytes = self.read_file();
+                return;
+            }
+            Ok(Err(e)) => {
+                self.rep.log(format!("  flush failed: {}", e.to_string().chars().take(60).collect::<String>()));
+                self.rep.probe("flush_failed_on_blocked_path");
+            }
+        }
+        let after = snap_of(hooks::store_data(&store));
+        for (k, a) in before.keys() {
+            if after.get(&k, &a).is_none() {
+                self.procs[0] = Some(store);
+                return self.viol(
+                    "flush.failed_flush_dropped_memory",
+                    &[("fault", "cache_path_blocked".into())],
+                    format!("the flush failed (nothing was saved) and {} is gone from the store's memory", self.short_of(&a)),
+                );
+            }
+        }
+        // the path is free again: the same store flushes once more
+        let r2 = catch_unwind(AssertUnwindSafe(|| store.sync_and_flush_to_disk(false)));
+        self.procs[0] = Some(store);
+        match r2 {
+            Err(p) => {
+                let msg = panic_text(p);
+                self.viol("panic", &[("where", "flush_after_blocked_path".into())], format!("the flush panicked: {msg}"))
+            }
+            Ok(Err(e)) => self.viol("flush.failed", &[("file_at_load", "Absent".into())], format!("the flush after the path was freed returned an error: {e}")),
+            Ok(Ok(())) => {
+                let bytes = self.read_file();
+                let f1 = bytes.as_ref().and_then(|b| parse_file(b));
+                self.last_bytes = bytes;
+                match f1 {
+                    None => self.viol("persist.unreadable_by_reference_reader", &[("writers", "none_in_flight".into())], "the file just committed is not a well-formed cache file".into()),
+                    Some(f1) => {
+                        for (k, a) in before.keys() {
+                            if f1.get(&k, &a).is_none() {
+                                return self.viol(
+                                    "sync.lost_entry",
+                                    &[("side", "memory".into()), ("cleanup", "false".into()), ("after", "failed_flush".into())],
+                                    format!("{} was known to the store before its failed flush and is missing from the file its next flush saved", self.short_of(&a)),
+                                );
+                            }
+                        }
+                        self.rep.probe("retry_after_failed_flush_saved_everything");
+                    }
+                }
+            }
+        }
+    }
+
     fn mem_snap(&self, p: usize) -> Option<Snap> {
         self.procs[p].as_ref().map(|s| snap_of(hooks::store_data(s)))
     }
@@ -756,7 +844,10 @@ impl<'a> World<'a> {
             let addr = good_addr(self.plan.ukey, peer, var);
             let age = crafted_age(e.age, self.plan.expiry_s);
             future |= age_is_future(e.age);
-            let ls = if age >= 0 {
+            let ls = if e.age == 99 {
+                // a stamp so far in the future that adding the expiry to it overflows SystemTime
+                crate::model::far_future()
+            } else if age >= 0 {
                 self.base - Duration::from_secs(age as u64)
             } else {
                 self.base + Duration::from_secs((-age) as u64)
@@ -1544,6 +1635,9 @@ impl<'a> World<'a> {
         }
         if !self.stop && self.corrupt_pending_flush {
             self.rep.probe("run_ended_with_corrupted_file_in_place");
+        }
+        if !self.stop && self.plan.mode == "fault" && self.plan.ukey % 3 == 0 {
+            self.epilogue_failed_flush();
         }
         let fin = self.last_bytes.as_ref().and_then(|b| parse_file(b));
         let text = match (&self.last_bytes, &fin) {
